@@ -353,7 +353,7 @@ PROPS = {
     'C02': ['src/util', 'src/algo'],
     'C03': ['src/util', 'src/algo'],
     'C04': ['src/util', 'src/algo', 'src'],
-    'C05': ['src/util', 'src/algo'],
+    'C05': ['src/util', 'src/algo', 'src'],
     'C06': ['src/util', 'src/algo', 'src'],
     'C07': ['src/util', 'src/algo', 'src'],
     'C09': ['src/util', 'src/algo', 'src'],
